@@ -289,6 +289,9 @@ func (e *Engine) displayLine() {
 }
 
 func (e *Engine) displayMultilinePrompts() {
+	// The right-sided prompt is printed from the end of the line.
+	atLineEnd := true
+
 	// If we have more than one line, write the columns.
 	if e.line.Lines() > 1 {
 		term.MoveCursorUp(e.lineRows)
@@ -298,6 +301,8 @@ func (e *Engine) displayMultilinePrompts() {
 		// as there are newlines: go back down to the last row of the line anyway.
 		printed := e.prompt.MultilineColumnPrint()
 		term.MoveCursorDown(e.lineRows - printed)
+
+		atLineEnd = false
 	}
 
 	// Then if we have several lines, print any secondary prompt available
@@ -312,6 +317,15 @@ func (e *Engine) displayMultilinePrompts() {
 		e.prompt.SecondaryPrint()
 		term.MoveCursorBackwards(term.GetWidth())
 		term.MoveCursorDown(wrapped)
+		term.MoveCursorForwards(e.lineCol)
+
+		atLineEnd = true
+	}
+
+	// Without a secondary prompt (it does not fit in the
+	// indentation), the cursor is still in the first column.
+	if !atLineEnd {
+		term.MoveCursorBackwards(term.GetWidth())
 		term.MoveCursorForwards(e.lineCol)
 	}
 
